@@ -467,11 +467,15 @@ def sendReconfigResponse (respSeq : Nat) : M Unit := do
 
 /-- `_receive_reconfig_param`. -/
 def receiveReconfigParam : RcParam → M Unit
-  | .resetOut reqSeq _ _ streams => do
+  | .resetOut reqSeq _ lastTsn streams => do
     if (reqSeq : Int) = (← getE).reconfigResponseSeq then
       -- retransmitted request: repeat the response only
       sendReconfigResponse reqSeq
       return
+    -- data sent before the reset is still missing: not yet (the peer retransmits the request)
+    match (← getE).rx with
+    | none => return
+    | some rx => if uint32_gt lastTsn rx.last then return
     for sid in streams do
       modE fun e => { e with inStreams := dictDel e.inStreams sid }
       match dictGet (← getE).dataChannels sid with
